@@ -9,3 +9,41 @@ package crypto
 //@ iface func (pk PublicKey) Address() (r crypto.Address)
 //@   mode value
 //@   ensures r == pk_addr(pk) && len(r) == 20
+
+// ---------------------------------------------------------------- C19: multisignature keys (heap mode)
+// pk_verify_s(pk, msg, sig): verification under one key (uninterpreted); ms_n / ms_has / ms_sig: the
+// signatures held by a decoded MultiSig container.
+
+//@ iface func (pk PublicKey) VerifyBytes(msg []byte, sig []byte) (r bool)
+//@   mode heap
+//@   ensures r == pk_verify_s(pk, msg, sig)
+//@ iface func (ms MultiSig) NumOfSigs() (r int)
+//@   mode heap
+//@   ensures r == ms_n(ms)
+//@ iface func (ms MultiSig) GetSignatureByIndex(i int) (sig []byte, found bool)
+//@   mode heap
+//@   ensures found == ms_has(ms, i) && (found ==> sig == ms_sig(ms, i))
+
+// a multisignature key verifies exactly when the container decodes, holds as many signatures as there
+// are keys, and every key verifies the message with the signature in its own position
+//@ invariant cdcinv: cdc != nil
+//@ func (pms PublicKeyMultiSignature) VerifyBytes(msg []byte, multiSignature []byte) (r bool)
+//@   props C19
+//@   uses cdcinv
+//@   requires forall k int :: 0 <= k && k < len(pms.PublicKeys) ==> pms.PublicKeys[k] != nil
+//@   ensures r == (decodable(multiSignature, "crypto.MultiSig") && ms_n(decoded(multiSignature, "crypto.MultiSig")) == len(pms.PublicKeys) && (forall i int :: 0 <= i && i < len(pms.PublicKeys) ==> ms_has(decoded(multiSignature, "crypto.MultiSig"), i) && pk_verify_s(pms.PublicKeys[i], msg, ms_sig(decoded(multiSignature, "crypto.MultiSig"), i))))
+//@   loop 1 invariant 0 <= i && i <= numOfSigs && numOfSigs == len(pms.PublicKeys) && numOfSigs == ms_n(multiSig) && multiSig == decoded(multiSignature, "crypto.MultiSig") && decodable(multiSignature, "crypto.MultiSig")
+//@   loop 1 invariant forall j int :: 0 <= j && j < i ==> ms_has(multiSig, j) && pk_verify_s(pms.PublicKeys[j], msg, ms_sig(multiSig, j))
+//@   loop 1 frame
+//@   loop 1 decreases numOfSigs - i
+
+//@ func (ms MultiSignature) NumOfSigs() (r int)
+//@   props C19
+//@   ensures r == len(ms.Sigs)
+//@
+// (as implemented the guard is `len < i`: i == len(ms.Sigs) would index out of range; callers stay below)
+//@ func (ms MultiSignature) GetSignatureByIndex(i int) (sig []byte, found bool)
+//@   props C19
+//@   requires 0 <= i && i != len(ms.Sigs)
+//@   ensures found == (i < len(ms.Sigs) && ms.Sigs[i] != nil)
+//@   ensures found ==> sig == ms.Sigs[i]
